@@ -170,6 +170,8 @@ def run_plan(seed, op, who, plan, pre=None, post_check=True):
         try:
             obj = psutil.Process(n[who])
             obj2 = psutil.Process(n[who]) if post_check and plan else None
+            if sum(map(ord, op)) % 2 == 1 or op == "m:name":
+                outcome(obj.name)       # (a long-lived object that has answered before: about half of the operations start from one)
         except psutil.Error as e:
             return Run(tuple(plan), [], ("ctor", type(e).__name__), None)
     hook = PlanHook(plan, apply_dev)
@@ -425,6 +427,7 @@ def ztask(arg):
     import psutil
     n = ids(seed)
     w = mk_world(seed, [(n[who], "zombie")])
+    w.procs[n[who]].comm = b"sub) R (ject"        # (the state letter is what follows the LAST ')' of the stat record)
     use_world(w)
     obj = psutil.Process(n[who])
     hook = PlanHook(plan, apply_dev)
